@@ -1104,6 +1104,9 @@ caption_command(vbi_decoder *vbi, struct caption *cc,
 			erase_memory(cc, ch, ch->hidden);
 			erase_memory(cc, ch, ch->hidden ^ 1);
 
+			/* The displayed caption disappeared. */
+			clear(ch->pg + (ch->hidden ^ 1));
+
 			ch->mode = MODE_ROLL_UP;
 			ch->roll = roll;
 
